@@ -4,16 +4,6 @@ documents; closed form of `_build_data`. -/
 
 namespace Geff.TrackMate
 
-/-- the `TRACK_ID` value `_build_tracks` reads off a `Track` element -/
-def trackTid (md : List Feat) (t : Track) : Val :=
-  match convertAttributes md (trackTexts t) with
-  | .ok a => (aget? a "TRACK_ID").getD .none
-  | .exc _ => .none
-
-/-- every edge of the document with the id of its track, in document order -/
-def tagged (md : List Feat) (tracks : List Track) : List (Edge × Val) :=
-  tracks.flatMap (fun t => t.edges.map (fun e => (e, trackTid md t)))
-
 theorem addEdges_eq (md : List Feat) (tid : Val) (edges : List Edge) (g : Graph) :
     addEdges md tid edges g = addTagged md (edges.map (fun e => (e, tid))) g := by
   induction edges generalizing g with
@@ -50,29 +40,6 @@ theorem buildTracks_eq (md : List Feat) (tracks : List Track) (g : Graph)
     | ok g' =>
       simp only
       exact ih g' (fun t' ht' => h t' (by simp [ht']))
-
-/-- the nodes after `_add_all_nodes` -/
-def baseNodes (d : Doc) : List (Nat × Attrs) := d.spots.map (fun s => (spotId s, spotAttrs (attrsMd d) s))
-
-/-- **Well-formed document** = TrackMate's own invariants, as far as the converter relies on them. -/
-structure WF (d : Doc) : Prop where
-  /-- every spot converts (declared int features carry integer texts, …; a ROI with text has points) -/
-  spotOk : ∀ s ∈ d.spots, SpotOk (attrsMd d) s
-  /-- every spot has an ID and the IDs are pairwise distinct -/
-  spotHasId : ∀ s ∈ d.spots, s.id.isSome = true
-  idsNodup : (d.spots.map spotId).Nodup
-  /-- a ROI on every spot or on none -/
-  roiUniform : (∀ s ∈ d.spots, s.roi = none) ∨ (∀ s ∈ d.spots, s.roi.isSome = true)
-  /-- no spot attribute is called TRACK_ID -/
-  noTrackIdAttr : ∀ s ∈ d.spots, "TRACK_ID" ∉ (spotAttrs (attrsMd d) s).map (·.1)
-  /-- every track has a TRACK_ID and its attributes convert -/
-  trackOk : ∀ t ∈ d.tracks, ∃ a tid, convertAttributes (attrsMd d) (trackTexts t) = .ok a ∧ aget? a "TRACK_ID" = some tid
-  /-- edges convert, join existing spots, are pairwise distinct, and a spot is touched by edges of one
-  track id only (tracks are vertex-disjoint) -/
-  edgesOk : TaggedOk (attrsMd d) (baseNodes d) (tagged (attrsMd d) d.tracks)
-
-/-- the graph `_build_data` holds before the discard blocks (closed form) -/
-def fullGraph (d : Doc) : Graph := stamped (attrsMd d) (baseNodes d) (tagged (attrsMd d) d.tracks)
 
 theorem buildData_closed (d : Doc) (h : WF d) (ds dt : Bool) :
     buildData d ds dt = .ok (discard d.filtered ds dt (fullGraph d), d.spots.any (fun s => s.roi.isSome)) := by
